@@ -187,6 +187,28 @@ impl Check for C15 {
             let text = TextSpec { crlf: vec![false; lines.len()], lines, trailing_nl: false };
             events.push(Event { actor: 0, op: if session { Op::SessionText { text } } else { Op::Execute { lang: lang.into(), text } }, clock });
         }
+        if r.chance(1, 5) {
+            // scheduling inside evaluations: a rule that hands its operand back unchanged ("<value> wrapd"), so that
+            // the value is PRINTED after a callback ran - and inside that callback two lines in the other language
+            // are evaluated on the same calculator
+            let t0 = events.first().map(|e| e.clock.base()).unwrap_or(NS);
+            let pats: Vec<String> = ["DURATION", "DATE", "TIME", "MONEY", "NUMBER", "PERCENT", "DYNAMIC_TYPE"].iter().map(|k| format!("{{{}:v}} wrapd", k)).collect();
+            let mut head: Vec<Event> = Vec::new();
+            for (k, l) in ["en", "tr"].iter().enumerate() {
+                head.push(Event { actor: ADMIN, op: Op::Admin(AdminOp::AddRule { lang: l.to_string(), rule: crate::trace::RuleSpec { id: 905 + k as u32, name: "wraprule".into(), patterns: pats.clone(), result: crate::trace::ResultSpec::Echo { field: "v".into() }, decline_num: 0, decline_den: 0, unwind_den: 0 } }), clock: ClockScript::Frozen { t: t0 } });
+            }
+            let mut cur_lang: std::collections::BTreeMap<u8, String> = std::collections::BTreeMap::new();
+            for ev in events.iter_mut() {
+                if let Op::SessionNew { lang } | Op::SessionLang { lang } = &ev.op { cur_lang.insert(ev.actor, lang.clone()); }
+                let outer_lang = match &ev.op { Op::Execute { lang, .. } => lang.clone(), Op::SessionText { .. } => cur_lang.get(&ev.actor).cloned().unwrap_or_else(|| "en".into()), _ => continue };
+                if !r.chance(1, 2) { continue; }
+                let other = if outer_lang == "tr" { "en" } else { "tr" };
+                let inner = vec![crate::trace::InnerStep { at_call: 1, actor: 121, session: false, lang: other.to_string(), text: TextSpec::raw(&["12 + 30", "2 * 21"]), dt: 0 }];
+                ev.op = Op::Nested { outer: Box::new(ev.op.clone()), inner };
+            }
+            head.extend(events.drain(..));
+            events = head;
+        }
         crate::gen::decliner_variants(&mut r, &mut events);
         Trace { check: "C15".into(), seed, host_tz: env.host_tz.clone(), salt: 0, mode: format!("{}{}{}", first_lang, if session { "+session" } else { "" }, if user_units { "+user-units" } else { "" }), events }
     }
@@ -206,8 +228,11 @@ impl Check for C15 {
                 Op::Admin(op) => { let _ = w.admin(op, &ev.clock); let _ = w.cfg.apply(&env.data, op); rep.count(op.kind()); }
                 Op::SessionNew { lang } => { w.session_new(ev.actor, lang); session_lang = lang.clone(); }
                 Op::SessionLang { lang } => { if w.sessions.contains_key(&ev.actor) { w.session_set_language(ev.actor, lang); session_lang = lang.clone(); rep.count("session.language_switch"); } }
-                Op::Execute { .. } | Op::SessionText { .. } => {
-                    let (lang, text, via_session) = match &ev.op { Op::Execute { lang, text } => (lang.clone(), text, false), Op::SessionText { text } => (session_lang.clone(), text, true), _ => unreachable!() };
+                Op::Execute { .. } | Op::SessionText { .. } | Op::Nested { .. } => {
+                    // (nested: the value is printed by an evaluation during which ANOTHER text - possibly in the other
+                    // language - was evaluated inside a rule callback; the print must still read back under this language)
+                    let (base_op, inner): (&Op, Option<&Vec<crate::trace::InnerStep>>) = match &ev.op { Op::Nested { outer, inner } => (&**outer, Some(inner)), other => (other, None) };
+                    let (lang, text, via_session) = match base_op { Op::Execute { lang, text } => (lang.clone(), text, false), Op::SessionText { text } => (session_lang.clone(), text, true), _ => continue };
                     let lang = &lang;
                     if via_session && !w.sessions.contains_key(&ev.actor) { w.session_new(ev.actor, lang); }
                     if via_session { rep.count("session.value_through_long_lived_session"); }
@@ -217,7 +242,21 @@ impl Check for C15 {
                         let raw = match l { Line::Raw(s) => s, _ => continue };
                         let (kind, line) = match raw.strip_prefix(MARK).and_then(|x| x.split_once('\u{1}')) { Some((k, l)) => (k.to_string(), l.to_string()), None => ("?".to_string(), raw.clone()) };
                         let base_kind = kind.split(':').next().unwrap_or("?").to_string();
-                        let (o1, _) = if via_session { w.session_text(ev.actor, &line, &ev.clock) } else { w.execute(lang, &line, &ev.clock) };
+                        let (o1, _) = match inner {
+                            Some(steps) if !steps.is_empty() => {
+                                // "<value> wrapd": the rule hands the value back; the other text runs inside its callback, the value is printed afterwards
+                                let st = &steps[0];
+                                let r2: Vec<String> = st.text.lines.iter().map(|l| match l { Line::Raw(s) => s.strip_prefix(MARK).and_then(|x| x.split_once('\u{1}')).map(|(_, l)| l.to_string()).unwrap_or_else(|| s.clone()), Line::Sem(_) => String::new() }).collect();
+                                let calls = vec![crate::world::InnerCall { idx: 0, at_call: 1, actor: st.actor, session: false, lang: st.lang.clone(), text: st.text.assemble(&r2), t: t + st.dt }];
+                                let full = format!("{} wrapd", line);
+                                let (o, log, results) = w.run_nested(if via_session { Some(ev.actor) } else { None }, lang, &full, &ClockScript::Frozen { t }, calls);
+                                if results.iter().any(|r| r.fired_in_call.is_some()) { rep.count("sched.step_inside_callback"); }
+                                // keep only the slot of the value line
+                                let o = match o { CallObs::Returned { status, mut lines } => { let last = lines.pop(); CallObs::Returned { status, lines: last.into_iter().collect() } } other => other };
+                                (o, log)
+                            }
+                            _ => if via_session { w.session_text(ev.actor, &line, &ev.clock) } else { w.execute(lang, &line, &ev.clock) },
+                        };
                         rep.evaluations += 1;
                         rep.mix_obs(&o1.short());
                         let s1 = match &o1 { CallObs::Returned { lines, .. } => lines.first().map(|x| x.slot.clone()), CallObs::Unwound(p) => { rep.violate("O-roundtrip", format!("C15:{}", p.key()), ei, format!("evaluating {:?} panicked: {} at {}", line, p.msg, p.loc)); continue; } };
